@@ -286,6 +286,7 @@ func (c *ctx) genFacts() string {
 	var facts []fact
 	facts = append(facts, c.timerFacts()...)
 	facts = append(facts, c.rawSeqCompareFact())
+	facts = append(facts, c.stateTestsFact())
 	facts = append(facts, c.lockFacts()...)
 	for _, f := range facts {
 		b.WriteString(f.lean() + "\n")
